@@ -18,8 +18,7 @@ LEVEL_TEXT = ('Every Python-visible mutating file-system operation of the explor
               'keep_every_n_steps, overwrite, prefixes.')
 LEVEL_NOTE = ('Crashes are modelled at operation boundaries of the Python-visible file API plus torn writes of the legacy file; power-loss '
               'reordering below POSIX, tensorstore C++ writes inside Orbax and non-atomic GCS directory moves are out of reach. Prefixes '
-              "ending in a sign/digit/dot and numerically equal steps with different spellings are ambiguous by construction and excluded; "
-              'step 0 is excluded when keep_every_n_steps is set.')
+              "ending in a sign/digit/dot and numerically equal steps with different spellings are ambiguous by construction and excluded.")
 TECHNIQUE = 'runtime monitoring with fault injection: crash-point enumeration at the flax.io / audit-hook boundary + retention reference model + recovery history checker'
 RULE = ('history = (backend, io mode, prefix, list of save ops (step, keep, keep_every_n_steps, overwrite)); the last save of each history is '
         'crashed at every operation index (and torn-write prefix); distinct = distinct (history, crash point, recovery path); non-trivial = '
@@ -57,7 +56,7 @@ def model_save(present, step, keep, keep_every, overwrite, backend):
   if len(order) > keep:
     old, last_kept = order[:-keep], float('-inf')
     for s in old:
-      if keep_every and s and (s - last_kept) >= keep_every:
+      if keep_every and (s - last_kept) >= keep_every:  # documented policy (tests/checkpoints_test.py test_keep): no special case for step 0
         last_kept = s
         continue
       present.discard(s)
@@ -216,7 +215,7 @@ def gen_histories(ctx):
   rng = ctx.rng('histories')
   step_sets = [
       [1, 2, 3, 4], [9, 10, 11, 100], [1.5, 2.5, 10.25, 11.0], [-3, -2, -1, 5], [1, 2.5, 3, 10], [1e-05, 0.5, 1000.0, 1e22],
-      [5, 6, 7, 8, 9], [-10.5, -2, 3, 40],
+      [5, 6, 7, 8, 9], [-10.5, -2, 3, 40], [0, 1, 2, 3, 4], [0, 10, 20, 30], [-2, 0, 2, 4], [0.0, 0.5, 1.5, 2.5],
   ]
   prefixes = ['checkpoint_', 'ck2pt_', 'model_v2-final_', 'run1_step_']
   hs = []
@@ -227,6 +226,9 @@ def gen_histories(ctx):
     steps = list(rng.choice(step_sets))
     keep = rng.choice([1, 2, 2, 3])
     keep_every = rng.choice([None, None, 2, 3])
+    if i in (4, 5, 6, 7):
+      # step 0 together with keep_every_n_steps (one history per back-end / io mode): the oldest checkpoint is the first one retained
+      steps, keep, keep_every = list(step_sets[8 + (i % 4)]), 1, rng.choice([1, 2])
     ops = []
     k = rng.randint(2, min(5, len(steps)))
     for s in steps[:k]:
@@ -435,15 +437,28 @@ def child_async(d, hist, delayed):
   inj = crash.Injector(d, delay_in_thread=delay if delayed else None)
   inj.install_io_proxy()
   inj.active = True
-  am = checkpoints.AsyncManager() if delayed is not None else None
+  class SlowStart(checkpoints.AsyncManager):
+    # the worker starts late: whatever the task still reads from the caller's objects is read after the caller has moved on
+    def save_async(self, task):
+      def late():
+        time.sleep(0.05)
+        return task()
+      return super().save_async(late)
+
+  am = (SlowStart() if 'start' in delayed else checkpoints.AsyncManager()) if delayed is not None else None
   outcomes = []
   for step, keep, keep_every, overwrite in hist['ops']:
+    tree = tree_for(step)
     try:
-      checkpoints.save_checkpoint(d, tree_for(step), step, prefix=hist['prefix'], keep=keep, overwrite=overwrite,
+      checkpoints.save_checkpoint(d, tree, step, prefix=hist['prefix'], keep=keep, overwrite=overwrite,
                                   keep_every_n_steps=keep_every, async_manager=am)
       outcomes.append('ok')
     except Exception as e:  # noqa: BLE001
       outcomes.append(type(e).__name__)
+    # the training loop goes on: the arrays just saved are updated IN PLACE as soon as save_checkpoint has returned
+    # (the checkpoint of step N must hold the values of step N, as a synchronous save does)
+    tree['w'] += 1.0
+    tree['nested']['ids'] -= 1
   if am is not None:
     am.wait_previous_save()
   inj.active = False
@@ -462,7 +477,7 @@ def run_async(ctx, hi, hist):
     if sync is None:
       ctx.note_inconclusive('sync child failed %s' % err)
       return
-    for di, delayed in enumerate([(), ('write',), ('rename',), ('open_w', 'close'), ('remove', 'rename', 'write')]):
+    for di, delayed in enumerate([(), ('write',), ('rename',), ('open_w', 'close'), ('remove', 'rename', 'write'), ('start',), ('start', 'write')]):
       with ctx.case('async', hi * 10 + di, dict(history=hist['ops'], io=hist['io'], delayed_ops=delayed), nontrivial=True):
         d1 = os.path.join(base, 'a%d' % di)
         os.makedirs(d1)
